@@ -75,3 +75,25 @@ def gp_reclaim_oracle(lines, ops, ret_op, locname):
                 if rn == node and i > tau and not waiting and inprog.get(t, -1) > tau:
                     return 'step %d "%s" touches node %s, retired at step %d; every operation in progress then has returned and this operation began later' % (i, l, node, tau)
     return None
+
+def sleeper_order(raw):
+    """Program-order conformance with the futex handshake models (Futex/CrFutex.v: H_Dec ; H_Mb1 ; H_Splice ; H_Check ; ... ; H_Wait - and the same shape in wait_gp,
+    the rcu_barrier completion wait, the defer and work-queue threads): a thread that has announced its sleep by decrementing futex word L must look at the
+    condition it sleeps on (any access to another location) before it blocks in FUTEX_WAIT on L.  Returns a description of the first violation or None."""
+    since = {}
+    for l in raw.splitlines():
+        p = l.split()
+        if len(p) < 3 or not p[0].isdigit(): continue
+        t, k, loc = p[0], p[1], p[2]
+        d = since.setdefault(t, {})
+        if k == 'dec': 
+            for L in d:
+                if L != loc: d[L] += 1
+            d[loc] = 0
+        elif k == 'futex_wait':
+            if loc in d and d[loc] == 0 and p[-1] in ('sleep', 'EAGAIN'):
+                return 'thread %s blocks in FUTEX_WAIT on %s right after announcing the sleep (decrement of %s) without looking at the condition again in between: a wake-up sent between its earlier look and the announcement is lost' % (t, loc, loc)
+        elif k in ('load', 'xchg', 'cas', 'add', 'inc', 'or', 'and', 'lock', 'trylock', 'store'):
+            for L in d:
+                if L != loc: d[L] += 1
+    return None
